@@ -1,0 +1,80 @@
+//go:build verif
+
+package p2p
+
+import (
+	"github.com/MixinNetwork/mixin/common"
+	"github.com/MixinNetwork/mixin/crypto"
+)
+
+// Thin exported wrappers for the verification harness (C08). Add-only.
+
+func VerifParseNetworkMessage(version uint8, data []byte) (*PeerMessage, error) {
+	return parseNetworkMessage(version, data)
+}
+
+func (m *PeerMessage) VerifUnsigned() []byte { return m.unsigned }
+
+func (m *PeerMessage) VerifSignature() *crypto.Signature { return m.signature }
+
+func (m *PeerMessage) VerifVersion() byte { return m.version }
+
+func VerifParseTransactionsPayload(data []byte) ([]*common.VersionedTransaction, error) {
+	return parseTransactionsPayload(data)
+}
+
+func VerifBuildTransactionsPayload(txs []*common.VersionedTransaction) []byte {
+	return buildTransactionsPayload(txs)
+}
+
+func VerifMarshalSyncPoints(points []*SyncPoint) []byte { return marshalSyncPoints(points) }
+
+func VerifUnmarshalSyncPoints(b []byte) ([]*SyncPoint, error) { return unmarshalSyncPoints(b) }
+
+func VerifBuildAuthenticationMessage(data []byte) []byte { return buildAuthenticationMessage(data) }
+
+func VerifBuildBatchSnapshotAnnouncementMessage(s *common.Snapshot, R, spend crypto.Key) []byte {
+	return buildBatchSnapshotAnnouncementMessage(s, R, spend)
+}
+
+func VerifBuildBatchSnapshotCommitmentMessage(handle SyncHandle, snap crypto.Hash, R crypto.Key, wantTxs []crypto.Hash) []byte {
+	return buildBatchSnapshotCommitmentMessage(handle, snap, R, wantTxs)
+}
+
+func VerifBuildBatchTransactionChallengeMessage(snap crypto.Hash, cosi *crypto.CosiSignature, txs []*common.VersionedTransaction) []byte {
+	return buildBatchTransactionChallengeMessage(snap, cosi, txs)
+}
+
+func VerifBuildBatchFullChallengeMessage(s *common.Snapshot, commitment, challenge *crypto.Key, txs []*common.VersionedTransaction) []byte {
+	return buildBatchFullChallengeMessage(s, commitment, challenge, txs)
+}
+
+func VerifBuildSnapshotResponseMessage(snap crypto.Hash, si *[32]byte) []byte {
+	return buildSnapshotResponseMessage(snap, si)
+}
+
+func VerifBuildBatchSnapshotFinalizationMessage(s *common.Snapshot) []byte {
+	return buildBatchSnapshotFinalizationMessage(s)
+}
+
+func VerifBuildSnapshotConfirmMessage(snap crypto.Hash) []byte {
+	return buildSnapshotConfirmMessage(snap)
+}
+
+func VerifBuildTransactionMessage(ver *common.VersionedTransaction) []byte {
+	return buildTransactionMessage(ver)
+}
+
+func VerifBuildTransactionsMessage(txs []*common.VersionedTransaction, typ byte) []byte {
+	return buildTransactionsMessage(txs, typ)
+}
+
+func VerifBuildTransactionRequestMessage(tx crypto.Hash) []byte {
+	return buildTransactionRequestMessage(tx)
+}
+
+func VerifBuildGraphMessage(handle SyncHandle) []byte { return buildGraphMessage(handle) }
+
+func VerifBuildCommitmentsMessage(handle SyncHandle, commitments []*crypto.Key) []byte {
+	return buildCommitmentsMessage(handle, commitments)
+}
